@@ -6,6 +6,7 @@ CONSTANTS
   MaxDepth = 1
   MaxLen = 6
   Forms = {"plain", "open", "neg", "over"}
+  ColFamily = "small"
   PairFamily = "cuts"
 INVARIANT TypeOK
 INVARIANT Rectangular
